@@ -144,6 +144,18 @@ CHECKS["C05"] = dict(
     ref="DESIGN.md section 4, C05",
 )
 
+CHECKS["C15"] = dict(
+    category="model_checking",
+    technique="explicit-state breadth-first search over histories of host operations on real VirtualMachine objects, canonical-state deduplication, reference state machine compared in every state",
+    text="States are canonical forms of all mutable state reachable from two VMs of one linked program (globals, VM object graphs, "
+         "module-level state); transitions call the real SetGlobal/Invoke; every history is replayed on fresh VMs beside a reference "
+         "state machine and all globals of both VMs plus the return value are compared after every step. Thorough runs to closure "
+         "(409600 + 9 + 2025 states, 13.9 M transitions); quick explores to depth 4/closure/6.",
+    note="Trusted: refsem and the three driver programs' finiteness (wrap-around counters). Model traces = implementation traces (the search "
+         "runs on the implementation; traces_validated_against_impl = transitions).",
+    ref="DESIGN.md section 4, C15",
+)
+
 PENDING = {}
 
 
